@@ -681,13 +681,21 @@ ERASERS = [("numpy-shape-dtype-not-hashed", _erase_numpy), ("closure-not-hashed"
 
 
 def classify_collision(a, b):
-    """Mechanism = the single kind of information whose erasure makes the two contents equal."""
-    for mech, f in ERASERS:
-        try:
-            if canon(_map(a, f)) == canon(_map(b, f)):
-                return mech
-        except Exception:
-            continue
+    """Mechanism = the kind of information whose erasure makes the two contents equal.  When no
+    single erasure suffices (e.g. a namedtuple of another class holding another closure) the smallest
+    set of erasures is searched and its first member (ERASERS order) is reported: the collision needs
+    every member of the set, so it disappears as soon as any of them is fixed."""
+    import itertools
+    for n in (1, 2, 3):
+        for combo in itertools.combinations(ERASERS, n):
+            try:
+                x, y = a, b
+                for _, f in combo:
+                    x, y = _map(x, f), _map(y, f)
+                if canon(x) == canon(y):
+                    return combo[0][0]
+            except Exception:
+                continue
     return None
 
 
